@@ -300,6 +300,40 @@ def run(ctx):
         tot = sum(float(v) for v in frac.values())
         if abs(tot - 1.0) > 1e-9:
             ctx.violation("fitfrac:4body:partition:batch=%d" % b, {"sum": tot})
+    # proper subsets of the resonances, and a partial chain selection active at the time of the call: the fractions of
+    # the listed resonances and their pairs add up to one (the total is their partial sum) through every route
+    subsets = [["R_BC", "R_BD"], ["R_CD", "R_BC"], ["R_BD", "R_CD"], list(res3)]
+    actives = [None, ["R_BC"], ["R_CD", "R_BD"]]
+    combos = [(sub, act) for sub in subsets for act in actives if not (len(sub) == 3 and act is None)]
+    if quick:
+        rng.shuffle(combos)
+        combos = sorted(combos[:4], key=repr)
+    for sub, act in combos:
+        ref = None
+        for method in ("old", "new", "direct", "nograd"):
+            amp3.set_used_res(act if act else list(res3))
+            try:
+                if method == "old":
+                    frac, _ = fit_fractions(amp3, d3, res=list(sub), batch=7, method="old")
+                elif method == "new":
+                    frac, _ = fit_fractions(amp3, d3, res=list(sub), batch=7, method="new").get_frac(error_matrix=None, sum_diag=False)
+                elif method == "direct":
+                    frac, _ = cal_fitfractions(amp3, d3, res=list(sub), batch=7)
+                else:
+                    frac = cal_fitfractions_no_grad(amp3, d3, res=list(sub), batch=7)
+                    frac = {(tuple(k.split("x")) if "x" in k else k): v for k, v in frac.items()}
+            finally:
+                amp3.set_used_res(list(res3))
+            nff += 1
+            vals = {str(k): float(v) for k, v in frac.items()}
+            total = sum(vals.values())
+            key = "fitfrac:res=%s:active=%s:%s" % ("+".join(sub), "+".join(act) if act else "all", method)
+            if not abs(total - 1.0) <= 1e-9:
+                ctx.violation(key + ":sum_rule", {"sum": total, "fractions": vals})
+            if ref is None:
+                ref = vals
+            elif any(kk not in vals or abs(vals[kk] - ref[kk]) > 1e-9 * max(1.0, abs(ref[kk])) for kk in ref):
+                ctx.violation(key + ":method_dependence", {"fractions": vals, "reference(old)": ref})
     # one FitFractions object integrated again (another sample / changed parameters): the totals
     # must start from zero every time
     ff = fit_fractions(amp3, d3, res=res3, batch=7, method="new")
